@@ -105,6 +105,21 @@ Qed.
 
 (* ---------------------------------------------------------------------------------------------- *)
 (* totality *)
+Lemma land1 y : Z.land y 1 = y mod 2.
+Proof. change 1 with (Z.ones 1). rewrite Z.land_ones by lia. reflexivity. Qed.
+Lemma parity_sub p y : p mod 2 = 1 -> Z.land y 1 = 0 -> Z.land (p - y) 1 = 1.
+Proof. rewrite !land1. intros Hp Hy. rewrite Zminus_mod, Hp, Hy. reflexivity. Qed.
+Lemma parity_sub' p y : p mod 2 = 1 -> Z.land y 1 <> 0 -> Z.land (p - y) 1 = 0.
+Proof.
+  rewrite !land1. intros Hp Hy. rewrite Zminus_mod, Hp. pose proof (Z.mod_pos_bound y 2 ltac:(lia)).
+  replace (y mod 2) with 1 by lia. reflexivity.
+Qed.
+Lemma land1_cases y : Z.land y 1 = 0 \/ Z.land y 1 = 1.
+Proof. rewrite land1. pose proof (Z.mod_pos_bound y 2 ltac:(lia)). lia. Qed.
+Lemma curve_p_odd : curve_p mod 2 = 1.
+Proof. vm_compute. reflexivity. Qed.
+
+Local Opaque curve_p curve_a curve_b curve_n Z.pow Z.modulo Z.mul Z.add Z.sub Z.land.
 Section Total.
 Variable b58 : text -> option bytes.
 Variable bech32 : text -> option (text * Z * bytes * bool).
@@ -327,3 +342,305 @@ Proof.
 Qed.
 
 End Total.
+
+(* ---------------------------------------------------------------------------------------------- *)
+(* the seed parsers and the dispatchers that contain them: total outside named exclusions *)
+
+(* P:<passphrase> whose passphrase holds a lone surrogate: str.encode("utf8") raises outside any try *)
+Definition seed_surrogate (s : text) : bool :=
+  match seed_secret s with Raise _ => true | _ => false end.
+(* the text is a well-formed H:/P: seed, so hd_seed reaches the missing NetworkKeys.hd_seed *)
+Definition seed_well_formed (s : text) : bool :=
+  match seed_secret s with Ret (Some _) => true | _ => false end.
+(* the left half of the HMAC is 0 or >= n (probability 2^-127; no input known) *)
+Definition seed_exponent_bad (hmac512 : bytes -> bytes) (s : text) : bool :=
+  match seed_secret s with
+  | Ret (Some m) => negb (valid_exponent (from_bytes (take 32 (hmac512 m))))
+  | _ => false
+  end.
+(* E:<32 hex digits> whose stretched key is 0 or >= n (same remark) *)
+Definition electrum_seed_bad (stretch : bytes -> Z) (s : text) : bool :=
+  match electrum_to_blob s with
+  | Some blob => Nat.eqb (length blob) 16 && negb (valid_exponent (stretch blob))
+  | None => false
+  end.
+
+Section TotalSeeds.
+Variable b58 : text -> option bytes.
+Variable bech32 : text -> option (text * Z * bytes * bool).
+Variable int10 int16 : text -> option Z.
+Variable compile : text -> option bytes.
+Variable hmac512 : bytes -> bytes.
+Variable stretch : bytes -> Z.
+Variable mulG : Z -> Z * Z.
+Variable modsqrt : Z -> Z.
+Hypothesis Hhmac : forall m, length (hmac512 m) = 64%nat.
+Hypothesis HmulG : forall k, valid_exponent k = true -> on_curve (mulG k) = true.
+
+Lemma seed_secret_cases s :
+  seed_surrogate s = false -> seed_secret s = Ret None \/ exists m, seed_secret s = Ret (Some m).
+Proof.
+  unfold seed_surrogate. destruct (seed_secret s) as [[m|]|e|] eqn:E; intros H; try discriminate; eauto.
+  exfalso. unfold seed_secret in E. destruct (parse_colon_prefix s) as [[a b]|]; [|discriminate].
+  destruct (negb _); [discriminate|]. destruct (text_eqb a tH). destruct (h2b b); discriminate.
+  destruct (utf8 b); discriminate.
+Qed.
+
+Lemma bip32_seed_partial net s :
+  seed_surrogate s = false -> seed_exponent_bad hmac512 s = false -> returns (bip32_seed hmac512 mulG net s).
+Proof.
+  intros H1 H2. unfold bip32_seed. destruct (seed_secret_cases s H1) as [E|[m E]].
+  - rewrite E. cbn. auto with c18.
+  - unfold seed_exponent_bad in H2. rewrite E in *. cbn [bind].
+    apply negb_false_iff in H2. unfold from_master_secret, key_material_private.
+    rewrite H2, (HmulG _ H2). cbn [bind]. unfold drop. rewrite skipn_length, Hhmac. cbn. auto with c18.
+Qed.
+
+Lemma hd_seed_partial net s :
+  seed_surrogate s = false -> seed_well_formed s = false -> returns (hd_seed net s).
+Proof.
+  intros H1 H2. unfold hd_seed. destruct (seed_secret_cases s H1) as [E|[m E]].
+  - rewrite E. cbn. auto with c18.
+  - unfold seed_well_formed in H2. rewrite E in H2. discriminate.
+Qed.
+
+Lemma electrum_seed_partial net s :
+  electrum_seed_bad stretch s = false -> returns (electrum_seed stretch mulG net s).
+Proof.
+  unfold electrum_seed_bad, electrum_seed. destruct (electrum_to_blob s) as [blob|]; auto with c18.
+  destruct (Nat.eqb _ _); auto with c18. cbn [andb]. intros H. apply negb_false_iff in H.
+  unfold key_material_private. rewrite H, (HmulG _ H). cbn. auto with c18.
+Qed.
+
+Lemma hierarchical_key_partial net s :
+  seed_surrogate s = false -> seed_exponent_bad hmac512 s = false -> electrum_seed_bad stretch s = false ->
+  returns (hierarchical_key b58 hmac512 stretch mulG modsqrt net s).
+Proof.
+  intros H1 H2 H3. apply disabled_or_returns. apply first_of_returns.
+  intros f [<-|[<-|[<-|[<-|[<-|[<-|[<-|[]]]]]]]].
+  - apply bip32_seed_partial; assumption.
+  - apply hd_any_total.
+  - apply hd_any_total.
+  - apply hd_any_total.
+  - apply electrum_seed_partial; assumption.
+  - apply electrum_prv_total.
+  - apply electrum_pub_total.
+Qed.
+
+Lemma secret_partial net s :
+  seed_surrogate s = false -> seed_exponent_bad hmac512 s = false -> electrum_seed_bad stretch s = false ->
+  returns (secret b58 int10 int16 hmac512 stretch mulG modsqrt net s).
+Proof.
+  intros H1 H2 H3. apply first_of_returns. intros f [<-|[<-|[]]].
+  apply private_key_total. apply hierarchical_key_partial; assumption.
+Qed.
+
+Lemma parse_any_partial net s :
+  seed_surrogate s = false -> seed_exponent_bad hmac512 s = false -> electrum_seed_bad stretch s = false ->
+  returns (parse_any b58 bech32 int10 int16 compile hmac512 stretch mulG modsqrt net s).
+Proof.
+  intros H1 H2 H3. apply orelse_returns. apply payable_total. apply secret_partial; assumption.
+Qed.
+
+End TotalSeeds.
+
+(* --- refutations of unconditional totality --- *)
+Definition t_hd_seed_witness : text := [72; 58; 48; 48]%N.            (* "H:00" *)
+Definition t_surrogate_witness : text := [80; 58; 55296]%N.           (* "P:\ud800" *)
+
+Lemma hd_seed_raises net : hd_seed net t_hd_seed_witness = Raise E_ATTR.
+Proof. reflexivity. Qed.
+
+Lemma bip32_seed_raises hmac512 mulG net : bip32_seed hmac512 mulG net t_surrogate_witness = Raise E_VALUE.
+Proof. reflexivity. Qed.
+
+Lemma hd_seed_surrogate_raises net : hd_seed net t_surrogate_witness = Raise E_VALUE.
+Proof. reflexivity. Qed.
+
+(* with decoders that refuse the text (as the real ones do) the catch-all parsers inherit the exception *)
+Lemma parse_any_raises net : n_disabled net = false ->
+  parse_any (fun _ => None) (fun _ => None) (fun _ => None) (fun _ => None) (fun _ => None)
+            (fun _ => []) (fun _ => 0) (fun _ => (0, 0)) (fun _ => 0) net t_surrogate_witness = Raise E_VALUE.
+Proof. intros H. unfold parse_any, payable, address, secret, private_key, hierarchical_key, disabled_or. rewrite H. reflexivity. Qed.
+
+(* ---------------------------------------------------------------------------------------------- *)
+(* payloads of the wrong length / with out-of-range contents are refused *)
+Lemma b58_script_wrong_length pre mk d :
+  length d <> (length pre + 20)%nat -> b58_script_of_payload (Some pre) mk d = Ret None.
+Proof.
+  intros H. unfold b58_script_of_payload. destruct (negb (starts_with pre d)); [reflexivity|].
+  apply Nat.eqb_neq in H. rewrite H. reflexivity.
+Qed.
+
+Lemma b58_script_no_prefix mk d : b58_script_of_payload None mk d = Ret None.
+Proof. reflexivity. Qed.
+
+Section Refuse.
+Variable mulG : Z -> Z * Z.
+Variable modsqrt : Z -> Z.
+
+Lemma wif_wrong_length net pre d :
+  n_wif net = Some pre -> length d <> (length pre + 32)%nat -> length d <> (length pre + 33)%nat ->
+  wif_of_payload mulG net d = Ret None.
+Proof.
+  intros Hp H32 H33. unfold wif_of_payload. rewrite Hp.
+  destruct (starts_with pre d) eqn:S; [|reflexivity]. cbn [negb].
+  pose proof (starts_with_length _ _ S) as L.
+  unfold drop. rewrite skipn_length.
+  destruct (Nat.ltb_spec 32 (length d - length pre)).
+  - replace (Nat.eqb (length d - length pre) 33) with false by (symmetry; apply Nat.eqb_neq; lia). reflexivity.
+  - replace (Nat.eqb (length d - length pre) 32) with false by (symmetry; apply Nat.eqb_neq; lia). reflexivity.
+Qed.
+
+Lemma wif_bad_marker net pre d :
+  n_wif net = Some pre -> length d = (length pre + 33)%nat -> skipn (length pre + 32) d <> [x01] ->
+  wif_of_payload mulG net d = Ret None.
+Proof.
+  intros Hp L M. unfold wif_of_payload. rewrite Hp.
+  destruct (starts_with pre d) eqn:S; [|reflexivity]. cbn [negb].
+  unfold drop. rewrite skipn_length. replace (length d - length pre)%nat with 33%nat by lia.
+  cbn [Nat.ltb Nat.leb Nat.eqb negb orb].
+  rewrite <- skipn_add. rewrite (Nat.add_comm 32).
+  destruct (bytes_eqb _ _) eqn:E; [|reflexivity]. apply bytes_eqb_eq in E. exfalso; apply M; exact E.
+Qed.
+
+Lemma keys_private_invalid se c : valid_exponent se = false -> catch_value (keys_private mulG se c) = Ret None.
+Proof. intros H. unfold keys_private, key_material_private. rewrite H. reflexivity. Qed.
+
+(* a WIF whose 32-byte number is 0 or >= n is refused *)
+Lemma wif_bad_exponent net pre body :
+  n_wif net = Some pre -> valid_exponent (from_bytes (firstn 32 body)) = false ->
+  wif_of_payload mulG net (pre ++ body) = Ret None.
+Proof.
+  intros Hp V. unfold wif_of_payload. rewrite Hp, starts_with_app_intro. cbn [negb].
+  unfold drop, take. rewrite skipn_app_exact.
+  destruct (Nat.ltb 32 (length body)) eqn:E.
+  - destruct (_ || _); [reflexivity|]. apply keys_private_invalid, V.
+  - destruct (Nat.eqb (length body) 32) eqn:E2; [|reflexivity]. cbn [negb].
+    apply Nat.eqb_eq in E2. rewrite <- E2, firstn_all in V. apply keys_private_invalid, V.
+Qed.
+
+Lemma hd_wrong_length pre kind d :
+  length d <> 78%nat -> hd_of_payload mulG modsqrt pre kind d = Ret None.
+Proof.
+  intros H. unfold hd_of_payload. destruct pre; [|reflexivity]. destruct (negb _); [reflexivity|].
+  unfold hd_deserialize. apply Nat.eqb_neq in H. rewrite H. reflexivity.
+Qed.
+
+(* an extended private key whose key number is 0 or >= n is refused *)
+Lemma hd_bad_exponent pre kind d :
+  length d = 78%nat -> slice 45 46 d = [x00] -> valid_exponent (from_bytes (skipn 46 d)) = false ->
+  hd_of_payload mulG modsqrt pre kind d = Ret None.
+Proof.
+  intros L M V. unfold hd_of_payload. destruct pre; [|reflexivity]. destruct (negb _); [reflexivity|].
+  unfold hd_deserialize. rewrite L. cbn [Nat.eqb negb]. rewrite M.
+  cbn [bytes_eqb]. rewrite byte_eqb_refl. cbn [andb].
+  unfold key_material_private, drop. rewrite V. reflexivity.
+Qed.
+
+(* an extended public key whose x coordinate is >= p is refused *)
+Lemma hd_bad_x pre kind d :
+  length d = 78%nat -> slice 45 46 d <> [x00] -> curve_p <= from_bytes (skipn 46 d) ->
+  hd_of_payload mulG modsqrt pre kind d = Ret None.
+Proof.
+  intros L M V. unfold hd_of_payload. destruct pre; [|reflexivity]. destruct (negb _); [reflexivity|].
+  unfold hd_deserialize. rewrite L. cbn [Nat.eqb negb].
+  destruct (bytes_eqb (slice 45 46 d) _) eqn:E. apply bytes_eqb_eq in E. exfalso; apply M; exact E.
+  unfold sec_to_public_pair, drop.
+  assert (Hx : slice 1 33 (skipn 45 d) = skipn 46 d).
+  { unfold slice. rewrite <- skipn_add. cbn [Nat.add Nat.sub]. apply firstn_all2. rewrite skipn_length. lia. }
+  rewrite Hx. apply Z.leb_le in V. rewrite V. reflexivity.
+Qed.
+
+End Refuse.
+
+Lemma segwit_wrong_length net ver len mk hrp version data is_m :
+  length data <> len -> segwit_of_decoded net ver len mk (hrp, version, data, is_m) = Ret None.
+Proof.
+  intros H. unfold segwit_of_decoded. destruct (n_hrp net); [|reflexivity].
+  destruct (negb (text_eqb _ _)); [reflexivity|]. apply Nat.eqb_neq in H. rewrite H. reflexivity.
+Qed.
+
+(* ---------------------------------------------------------------------------------------------- *)
+(* re-serialisation at payload level *)
+Lemma firstn_app_len {A} n (a b : list A) : length a = n -> firstn n (a ++ b) = a.
+Proof. intros <-. apply firstn_app_exact. Qed.
+
+Lemma p2pkh_reserialize net d o : p2pkh_of_payload net d = Ret (Some o) -> p2pkh_payload net o = Some d.
+Proof.
+  unfold p2pkh_of_payload, b58_script_of_payload, p2pkh_payload.
+  destruct (n_address net) as [pre|]; [|discriminate].
+  destruct (starts_with pre d) eqn:S; [|discriminate]. cbn [negb].
+  destruct (Nat.eqb _ _) eqn:L; [|discriminate]. cbn [negb]. intros H; inversion H; subst o; clear H.
+  apply Nat.eqb_eq in L. f_equal. unfold script_p2pkh, take, drop. cbn [skipn app].
+  rewrite firstn_app_len by (rewrite skipn_length; lia). symmetry. apply starts_with_app, S.
+Qed.
+
+Lemma p2sh_reserialize net d o : p2sh_of_payload net d = Ret (Some o) -> p2sh_payload net o = Some d.
+Proof.
+  unfold p2sh_of_payload, b58_script_of_payload, p2sh_payload.
+  destruct (n_p2sh net) as [pre|]; [|discriminate].
+  destruct (starts_with pre d) eqn:S; [|discriminate]. cbn [negb].
+  destruct (Nat.eqb _ _) eqn:L; [|discriminate]. cbn [negb]. intros H; inversion H; subst o; clear H.
+  apply Nat.eqb_eq in L. f_equal. unfold script_p2sh, take, drop. cbn [skipn app].
+  rewrite firstn_app_len by (rewrite skipn_length; lia). symmetry. apply starts_with_app, S.
+Qed.
+
+Section Reser.
+Variable mulG : Z -> Z * Z.
+Variable modsqrt : Z -> Z.
+
+Lemma catch_value_keys_private_inv se c o :
+  catch_value (keys_private mulG se c) = Ret (Some o) -> exists pt, o = OKey (Prv se pt) c.
+Proof.
+  unfold keys_private, key_material_private. destruct (valid_exponent se); [|cbn; discriminate].
+  destruct (on_curve _); cbn; [|discriminate]. intros H; inversion H. eauto.
+Qed.
+
+Lemma wif_reserialize net d o : wif_of_payload mulG net d = Ret (Some o) -> wif_payload net o = Some d.
+Proof.
+  unfold wif_of_payload, wif_payload. destruct (n_wif net) as [pre|]; [|discriminate].
+  destruct (starts_with pre d) eqn:S; [|discriminate]. cbn [negb].
+  pose proof (starts_with_app _ _ S) as Hd. set (body := drop (length pre) d) in *.
+  destruct (Nat.ltb 32 (length body)) eqn:C.
+  - destruct (Nat.eqb (length body) 33) eqn:L; [|discriminate]. cbn [negb orb].
+    destruct (bytes_eqb (drop 32 body) [x01]) eqn:M; [|discriminate]. cbn [negb].
+    intros H. apply catch_value_keys_private_inv in H as [pt ->].
+    apply Nat.eqb_eq in L. apply bytes_eqb_eq in M.
+    rewrite to_from_bytes_32 by (unfold take; rewrite firstn_length; lia).
+    f_equal. etransitivity; [|symmetry; exact Hd]. f_equal. change (skipn (length pre) d) with body.
+    rewrite <- M. unfold take, drop. apply firstn_skipn.
+  - destruct (Nat.eqb (length body) 32) eqn:L; [|discriminate]. cbn [negb].
+    intros H. apply catch_value_keys_private_inv in H as [pt ->].
+    apply Nat.eqb_eq in L. rewrite to_from_bytes_32 by exact L.
+    f_equal. rewrite app_nil_r. symmetry. exact Hd.
+Qed.
+
+(* hd: deserialize looks only at bytes 4..77 *)
+Lemma hd_deserialize_ext kind d d' :
+  length d = length d' -> skipn 4 d = skipn 4 d' -> hd_deserialize mulG modsqrt kind d = hd_deserialize mulG modsqrt kind d'.
+Proof.
+  intros L E. unfold hd_deserialize. rewrite L.
+  assert (Hs : forall a b, (4 <= a)%nat -> slice a b d = slice a b d').
+  { intros a b Ha. unfold slice. replace a with ((a - 4) + 4)%nat by lia. rewrite !skipn_add, E. reflexivity. }
+  assert (Hk : forall a, (4 <= a)%nat -> drop a d = drop a d').
+  { intros a Ha. unfold drop. replace a with ((a - 4) + 4)%nat by lia. rewrite !skipn_add, E. reflexivity. }
+  rewrite !Hs by lia. rewrite !Hk by lia. reflexivity.
+Qed.
+
+(* points_for_x returns (even-y point, odd-y point), both with the requested x *)
+Lemma points_for_x_shape x pp :
+  points_for_x modsqrt x = Ret pp ->
+  fst (fst pp) = x /\ fst (snd pp) = x /\ Z.land (snd (fst pp)) 1 = 0 /\ Z.land (snd (snd pp)) 1 = 1.
+Proof.
+  unfold points_for_x, mk_point. destruct (_ =? 0); [discriminate|].
+  destruct (on_curve (x, modsqrt _)); cbn [bind]; [|discriminate].
+  destruct (on_curve (x, curve_p - modsqrt _)); cbn [bind]; [|discriminate].
+  destruct (Z.eqb_spec (Z.land (modsqrt (((x ^ 3) mod curve_p + curve_a * x + curve_b) mod curve_p)) 1) 0) as [E|E];
+    intros H; inversion H; subst; cbn [fst snd]; repeat split; auto.
+  - apply parity_sub; [apply curve_p_odd | exact E].
+  - apply parity_sub'; [apply curve_p_odd | exact E].
+  - destruct (land1_cases (modsqrt (((x ^ 3) mod curve_p + curve_a * x + curve_b) mod curve_p))); [contradiction|assumption].
+Qed.
+
+End Reser.
